@@ -86,12 +86,16 @@ def run_programs(check, wp, family, behs, table, seed, layouts, vers=None):
 
 
 def halt_programs(check, wp, family, seed, layouts, vers=None, num=40):
-    """programs of the form  <statement> __halt_compiler ( ) ; <raw data>  (root category "toplast" of Syntax.tla)"""
-    table, behs = syntax.generate(check, family, rootcat="toplast", rootmax=1, num=num, seed=seed + 9, depth=2)
-    res = run_programs(check, wp, family, behs, table, seed, layouts, vers)
-    for m, t, r in res:
-        m["i"] += 1000000
-    return res
+    """programs with the other two root forms of Syntax.tla:  <statement> __halt_compiler ( ) ; <raw data>  (root category
+    "toplast")  and files made of bracketed namespaces only (root category "nsonly")"""
+    out = []
+    for k, (rootcat, rootmax, depth) in enumerate((("toplast", 1, 2), ("nsonly", 2, 3))):
+        table, behs = syntax.generate(check, family, rootcat=rootcat, rootmax=rootmax, num=num, seed=seed + 9, depth=depth)
+        res = run_programs(check, wp, family, behs, table, seed, layouts, vers)
+        for m, t, r in res:
+            m["i"] += 1000000 * (k + 1)
+        out += res
+    return out
 
 
 def _needed_cats(fill):
@@ -137,7 +141,7 @@ def chain_programs(check, wp, family, seed, layouts, vers, maxchoices, fams=("bo
                                   exhaustive=True, maxchoices=maxchoices, timeout=2400)
     res = run_programs(check, wp, family, behs, table, seed, layouts, vers)
     for m, t, r in res:
-        m["i"] += 2000000
+        m["i"] += 4000000
     return res
 
 
